@@ -20,6 +20,8 @@ CLASSES = ["S@plain", "G@array", "S@struct", "E@cbuffer", "Eo@texture", "E@texar
 def nontrivial(req, obs):
     # at least two calls between generated functions and one function that receives an implicit parameter
     f = req.split("\t")
+    if f[0] == "C02.vex":
+        return obs.startswith("vast ") and "(" in obs[5:40]
     if f[0] == "C02.vfn":
         # vector stream: the function was exported, is inside both evaluators and ran to completion on some vector
         return obs.startswith("ast ") and " r=" in obs
@@ -33,17 +35,17 @@ def nontrivial(req, obs):
 
 
 def finding_key(req, obs, detail):
-    if req.startswith(("C02.gen\t", "C02.vfn\t")) and not obs and not detail:
+    if req.startswith(("C02.gen\t", "C02.vfn\t", "C02.vex\t")) and not obs and not detail:
         # probe of vlib.shrink: failures of the semantic stream are keyed by their input, so a smaller failing input is welcome
         return req
     d = (detail or "")[5:]
     d = re.sub(r":\d+:", ":", d)          # panic line numbers move with unrelated edits
     d = re.sub(r"panic \S*?((?:msl|ir|typer|parser|formatter|preprocess|text|ast|hlsl)/src/)", r"panic \1", d)
     first = d.split(" ## ")[0]
-    if req.startswith("C02.vfn\t") and first.startswith("panic "):
+    if req.startswith(("C02.vfn\t", "C02.vex\t")) and first.startswith("panic "):
         # a panic of the exporter is keyed by its site and message
         return re.sub(r"\d+", "N", first)
-    if req.startswith("C02.vfn\t") and not first.startswith("class:"):
+    if req.startswith(("C02.vfn\t", "C02.vex\t")) and not first.startswith("class:"):
         # the specific input: source text, function and argument vectors (the IR is derived from the source)
         return "input " + "\t".join(req.split("\t")[1:4]) + " :: " + first[:160]
     if first.startswith("class:"):
@@ -156,6 +158,18 @@ def custom(ctx):
         if bad:
             ctx.broken.append("the oracle reports a difference on a program that satisfies the hypotheses of gen_sem_*: "
                               + bad[0].split("\t")[1][:200])
+    custom_vec(ctx)
+
+
+def custom_vec(ctx):
+    """for how many of the explored vector expressions do the hypotheses of gen_sem_msl_vec_expr (VIr.typeOf + VOk.okMV) hold"""
+    vreqs = sorted(r for r in ctx.distinct if r.startswith("C02.vex\t") and r.split("\t")[2] != "-" and r.split("\t")[4] != "-")
+    if vreqs:
+        ans = ctx.run_model(["C02.vwt" + r[len("C02.vex"):] for r in vreqs])
+        ctx.extra["vector_theorem_hypotheses"] = {"requests": len(vreqs), "wt": ans.count("wt"), "not_wt": ans.count("not-wt"),
+                                                  "outside_layer": ans.count("unsupported")}
+        if ans.count("wt") < 0.9 * max(1, len(vreqs) - ans.count("unsupported")):
+            ctx.broken.append("coverage: fewer than 90% of the explored vector expressions satisfy gen_sem_msl_vec_expr's hypotheses")
 
 
 SPEC = {
